@@ -293,6 +293,14 @@ def r6(ctx):
                 if not mentions(e, lambda x: x == own):
                     bad.append((b.idx, st.dest.proj[-1], expr_str(e)[:60]))
         ctx.check(not bad, "iin-merge:%s" % name, "no field of the accumulator is overwritten", bd.where(bad[0][0]) if bad else bd.where(line=bd.line), bad_detail="%s assigns %s = %s: bits merged earlier are dropped" % (name, bad[0][1] if bad else "", bad[0][2] if bad else ""))
+        if re.search(r"^<Iin as BitOr(<.*>)?>::bitor$", name):
+            # the value-returning forms build a new Iin: both octets of the left operand survive in it
+            rets = [e for _, _, _, e in ret_sites(bd, sym)]
+            for f_ in ("iin1", "iin2"):
+                own = ("field", ("param", "self"), f_)
+                whole = lambda x: x in (("param", "self"), ("var", "self"))  # `mut self` accumulated in place and returned
+                ok = bool(rets) and all(mentions(e, lambda x: x == own) or e[0] in ("param", "var", "mutated") and mentions(e, whole) for e in rets)
+                ctx.check(ok, "iin-merge:%s:keeps-%s" % (name, f_), "the result carries self.%s" % f_, bd.where(line=bd.line), bad_detail="%s returns %s: the left operand's %s octet is dropped (bits merged earlier are lost)" % (name, expr_str(rets[0])[:80] if rets else "?", f_))
         if re.search(r"^<Iin[12] as BitOr>::bitor$", name):
             rets = [e for _, _, _, e in ret_sites(bd, sym)]
             ok = len(rets) == 1 and mentions(rets[0], lambda x: x[0] == "bin" and x[1] == "BitOr" and mentions_name(x, "self") and mentions_name(x, "rhs"))
